@@ -518,6 +518,116 @@ def analyse_functions(names=None, jobs=None, use_cache=True):
     return out
 
 
+def dispatch_table(modname, codes, fname='_get_cc_module'):
+    """Constant propagation through a dispatch function: country code -> module name / None (+ foreign exception kinds)."""
+    I = get_interp()
+    S = I.ctx.S
+    fn = I.prog.mods[modname].funcs[fname]
+    out = {}
+    for cc in codes:
+        env = Env()
+        I.ctx.scopes = [[]]
+        I.ctx.stack = [(modname, '<entry>')]
+        I.closures = []
+        I.memo = {}
+        v = I.call_func(Func(modname, fname), [S.const(cc)], {}, fn, env)
+        evs = sorted(set(e.kind for e in I.ctx.scopes[0]))
+        if env.dead:
+            val = 'raises'
+        elif isinstance(v, Mod):
+            val = v.name
+        elif v is NONE:
+            val = None
+        elif isinstance(v, ModSet):
+            val = 'one of %d modules%s' % (len(v.names), ' or None' if v.maybe_none else '')
+        else:
+            val = repr(v)[:60]
+        out[cc] = (val, evs)
+    return out
+
+
+def _wrapper_worker(job):
+    """wrapper W must have a returning path for every accepted shape of constituent K (optionally prefixed)."""
+    W, K, prefix = job
+    I = get_interp()
+    S, B = I.ctx.S, I.B
+    prog = I.prog
+    out = {'job': job, 'shapes': 0, 'rejected': [], 'noprefix': [], 'crash': None}
+    try:
+        rk = prog.resolve_name(prog.mods[K], 'validate')
+        rw = prog.resolve_name(prog.mods[W], 'validate')
+        knode = prog.mods[rk[1]].funcs[rk[2]]
+        wnode = prog.mods[rw[1]].funcs[rw[2]]
+        env = Env()
+        I.ctx.scopes = [[]]
+        I.ctx.stack = [(K, '<entry>')]
+        I.closures = []
+        I.memo = {}
+        kargs = entry_args(I, knode, env)
+        outs = I.call_func(Func(rk[1], rk[2]), kargs, {}, knode, env, multi=True)
+        if not isinstance(outs, list):
+            return out
+        for e0, v in outs:
+            if not isinstance(v, Str):
+                continue
+            e1 = e0.copy()
+            S.refine_all(e1, v, S.ASCII)
+            if e1.dead:
+                continue
+            variants = [(e1, v, '')]
+            # split a small first-character class so that a wrapper that drops one letter is noticed
+            first = v.pre[0] if v.pre else None
+            if prefix is None and first is not None and not isinstance(first, frozenset):
+                ex = B.exact_chars(e1.cls(first))
+                if ex is not None and 1 < len(ex) <= 40:
+                    variants = []
+                    for ch in sorted(ex):
+                        e2 = e1.copy()
+                        S.refine_cell(e2, first, B.cls_of_chars(ch))
+                        if not e2.dead:
+                            variants.append((e2, v, ' first character %r' % ch))
+            for e2, vv, note in variants:
+                out['shapes'] += 1
+                e = e2.copy()
+                e.frames = [{}]
+                arg = vv
+                if prefix is not None:
+                    st = I.starts_truth(vv, S.const(prefix), True, e)
+                    if st is None:
+                        out['shapes'] -= 1
+                        continue          # may or may not carry the prefix already: not a usable witness
+                    if st is False:
+                        arg = S.concat(e, S.const(prefix), vv)
+                I.ctx.scopes = [[]]
+                I.ctx.stack = [(W, '<entry>')]
+                I.closures = []
+                I.memo = {}
+                wargs = [arg] + entry_args(I, wnode, e)[1:]
+                outs2 = I.call_func(Func(rw[1], rw[2]), wargs, {}, wnode, e, multi=True)
+                desc = S.describe(e2, vv)[:90] + note
+                if not isinstance(outs2, list) or not outs2:
+                    kinds = sorted(set(ev.kind for ev in I.ctx.scopes[0]))
+                    out['rejected'].append((desc, kinds))
+                elif prefix is not None:
+                    carried = []
+                    for e3, v3 in outs2:
+                        pv = S.const_value(e3, S.slice(e3, v3, 0, len(prefix))) if isinstance(v3, Str) and (v3.lo or 0) >= len(prefix) else None
+                        carried.append(pv == prefix)
+                    # eu.vat re-attaches the prefix on every path; vatin only on the path where the member-state module accepted the remainder
+                    if not (all(carried) if W == 'stdnum.eu.vat' else any(carried)):
+                        out['noprefix'].append((desc, 'no returning path carries %s' % prefix))
+    except Exception:
+        import traceback
+        out['crash'] = traceback.format_exc()[-1200:]
+    return out
+
+
+def analyse_wrappers(jobs_list, jobs=None):
+    jobs = jobs or min(16, os.cpu_count() or 1)
+    get_interp()
+    return _pool_map(_wrapper_worker, list(jobs_list), jobs)
+
+
 def _pool_map(fn, items, jobs):
     if jobs <= 1 or len(items) <= 2:
         return [fn(x) for x in items]
